@@ -50,41 +50,185 @@ def is_mode_attr(t):
     return len(t) == 3 and t[0] == "attr" and t[2] in MODES
 
 
-def role_of(load, parents, ctx_mod):
-    """classify one ast.Attribute load of a mode field"""
-    p = parents.get(load)
-    # r4 string formatting
-    q = p
-    while q is not None:
-        if isinstance(q, ast.JoinedStr):
-            return "r4"
-        q = parents.get(q)
-    # r1 argument of get_(initial_)observation ; r0 forwarded to a constructor / super().__init__
-    if isinstance(p, ast.Call) or isinstance(p, ast.keyword):
-        call = p if isinstance(p, ast.Call) else parents.get(p)
-        if isinstance(call, ast.Call):
-            f = call.func
-            name = f.attr if isinstance(f, ast.Attribute) else getattr(f, "id", "")
-            if name in ("get_observation", "get_initial_observation"):
-                return "r1" if load.attr == "fully_obs" else None
-            if name in ("__init__", "NASimEnv", "NASimGymEnv"):
-                return "r0"
-    # r2 / r3: test of an if
-    if isinstance(p, ast.If) and p.test is load:
-        arms = [p.body, p.orelse]
-        if all(len(a) == 1 and isinstance(a[0], ast.Assign) and isinstance(a[0].value, ast.Call)
-               for a in arms):
-            fns = []
-            for a in arms:
-                f = a[0].value.func
-                fns.append(f.attr if isinstance(f, ast.Attribute) else getattr(f, "id", "?"))
-            same_target = ast.unparse(arms[0][0].targets[0]) == ast.unparse(arms[1][0].targets[0])
-            if same_target and load.attr == "flat_obs" and set(fns) in PRESENT_PAIRS:
-                return "r2"
-            if same_target and load.attr == "flat_actions" and \
-                    set(fns) == {"FlatActionSpace", "ParameterisedActionSpace"}:
-                return "r3"
-    return None
+PRES_METHODS = {"numpy_flat", "numpy", "shape_flat", "shape"}
+SPACE_CLASSES = {"FlatActionSpace", "ParameterisedActionSpace"}
+OBS_CALLS = {"get_observation", "get_initial_observation"}
+ENV_MODS = ("nasim.envs.environment", "nasim.envs.gym_env")
+
+
+def is_mode_term(t):
+    """a read of a mode: the attribute, or (inside __init__, after `self.flat_obs = flat_obs`) the
+    constructor parameter of the same name"""
+    return (len(t) == 3 and t[0] == "attr" and t[2] in MODES) or \
+        (len(t) == 2 and t[0] == "param" and t[1] in MODES)
+
+
+def pure_mode_cond(c):
+    while c[0] == "not":
+        c = c[1]
+    if c[0] in ("and", "or"):
+        return all(pure_mode_cond(x) for x in c[1])
+    if c[0] == "call" and c[1] == "builtins.bool" and len(c[2]) == 1:
+        return pure_mode_cond(c[2][0])
+    return is_mode_term(c)
+
+
+def presentational(t):
+    """one of the alternatives a mode may choose between: the flat / structured rendering of an
+    observation (or of its shape), or one of the two action-space classes"""
+    if t[0] == "mcall" and t[2] in PRES_METHODS:
+        return True
+    if t[0] == "call" and t[1].split(".")[-1] in PRES_METHODS and ":" in t[1]:
+        return True
+    if t[0] == "new" and t[1] in SPACE_CLASSES:
+        return True
+    if t[0] == "classref" and t[1] in SPACE_CLASSES:
+        return True
+    if t[0] == "call" and t[1].split(":")[-1].split(".")[0] in SPACE_CLASSES:
+        return True
+    return False
+
+
+def strip_presentation(t, memo):
+    """replace every use of a mode that is presentational by construction with a token, so that what
+    is left mentions a mode only where the mode can influence something else:
+      - a conditional value whose condition is a pure mode test and whose alternatives are all
+        presentational (see above)
+      - the fully_obs argument handed to get_observation / get_initial_observation
+      - a value interpolated into a string"""
+    if not isinstance(t, tuple) or not t:
+        return t
+    k = id(t)
+    r = memo.get(k)
+    if r is not None and r[0] is t:
+        return r[1]
+    out = t
+    if t[0] == "phi" and len(t) == 4 and pure_mode_cond(t[1]) \
+            and all(presentational(x) or (x[0] == "phi" and strip_presentation(x, memo) == ("PRES",))
+                    for x in t[2:4]):
+        out = ("PRES",)
+    elif t[0] == "cases" and all(all(pure_mode_cond(c) for c in pc if c[0] not in ("fact", "inloop"))
+                                 and presentational(x) for pc, x in t[1]):
+        out = ("PRES",)
+    elif t[0] == "fstr":
+        out = ("STR",)
+    elif t[0] in ("mcall",) and t[2] in OBS_CALLS:
+        args = tuple(("MODE-ARG",) if (is_mode_term(a) and a[-1] == "fully_obs")
+                     else strip_presentation(a, memo) for a in t[3])
+        kws = tuple((kk, ("MODE-ARG",) if (is_mode_term(v) and v[-1] == "fully_obs"
+                                            and kk == "fully_obs")
+                     else strip_presentation(v, memo)) for kk, v in t[4])
+        out = ("mcall", strip_presentation(t[1], memo), t[2], args, kws)
+    elif t[0] == "call" and t[1].split(".")[-1] in OBS_CALLS and ":" in t[1]:
+        args = tuple(("MODE-ARG",) if (is_mode_term(a) and a[-1] == "fully_obs")
+                     else strip_presentation(a, memo) for a in t[2])
+        out = ("call", t[1], args) + tuple(t[3:])
+    else:
+        out = tuple(strip_presentation(x, memo) if isinstance(x, tuple) else x for x in t)
+    memo[k] = (t, out)
+    return out
+
+
+def check_roles(ctx, chk):
+    """every function of the environment layer that reads a mode field: the mode reaches nothing but
+    presentation.  Decided on the abstract values (callees outside the environment layer are kept
+    opaque), so it does not depend on whether the choice is written as if/else, a conditional
+    expression, an early-return helper or a renamed local."""
+    from sa.interp import Interp
+    from sa.canon import Canon
+    repo = ctx.repo
+    outside = tuple(fi.fq for fi in repo.all_functions() if fi.module.name not in ENV_MODS)
+    n_env = 0
+    for fi in repo.all_functions():
+        if fi.module.name not in ENV_MODS:
+            continue
+        loads = [n for n in ast.walk(fi.node) if isinstance(n, ast.Attribute) and n.attr in MODES
+                 and isinstance(n.ctx, ast.Load)]
+        if not loads:
+            continue
+        n_env += len(loads)
+        cls = fi.cls.name if getattr(fi, "cls", None) is not None else None
+        pt = {fi.params[0]: cls} if cls and fi.params else {}
+        ip = Interp(repo, ctx.types, param_types=pt, no_inline=outside)
+        s = ip.run(fi)
+        cn = Canon(ip, ctx.layout)
+        cn.written = None
+        memo = {}
+        bad = []
+
+        def m(t):
+            return mentions(strip_presentation(t, memo), is_mode_term)
+
+        def mode_conds(pc):
+            return [c for c in pc if c[0] not in ("fact", "inloop") and mentions(c, is_mode_term)]
+        # ---- returns
+        guarded = [(pc, t) for pc, t in s.returns if mode_conds(pc)]
+        for pc, t in s.returns:
+            if m(t):
+                bad.append(f"returned value depends on a mode: {cn.show(t)[:160]}")
+        if guarded:
+            impure = [c for pc, t in guarded for c in mode_conds(pc) if not pure_mode_cond(c)]
+            if impure:
+                bad.append(f"a return is guarded by {cn.show(impure[0])[:120]}")
+            comps = {}
+            for pc, t in guarded:
+                parts = t[1] if t[0] == "tuple" else (t,)
+                for i, x in enumerate(parts):
+                    comps.setdefault((len(parts), i), []).append(x)
+            for (n, i), xs in comps.items():
+                distinct = {repr(x) for x in xs}
+                if len(distinct) > 1 and not all(presentational(x) for x in xs):
+                    bad.append(f"the mode selects between returned values "
+                               f"{sorted(cn.show(x)[:80] for x in xs)[:3]}")
+        # ---- effects and calls
+        for ev in s.events:
+            if ev.kind not in ("store", "call", "mcall", "new", "raise", "assert"):
+                continue
+            d = ev.data
+            mc = mode_conds(ev.pc)
+            what = None
+            if ev.kind == "store":
+                if d["target"] == "attr" and d.get("fresh"):
+                    continue
+                if d["target"] == "sub" and d["base"][0] in ("dictobj", "listobj"):
+                    continue
+                name = d.get("name") if d["target"] == "attr" else cn.show(d.get("idx"))
+                if d["target"] == "attr" and name in MODES and d["value"] == ("param", name) \
+                        and not mc:
+                    continue          # r0: the constructor records the mode
+                val_ok = presentational(d["value"]) or not m(d["value"])
+                if mc and not (presentational(d["value"]) and all(pure_mode_cond(c) for c in mc)):
+                    what = f"store to {name} happens only for some modes"
+                elif not val_ok:
+                    what = f"value stored to {name} depends on a mode"
+            elif ev.kind in ("call", "mcall", "new"):
+                t = d.get("result") or d.get("obj")
+                fname = d.get("fname") or d.get("name") or d.get("cls") or "?"
+                is_pres = t is not None and presentational(t)
+                if ev.kind == "new" and d.get("cls") in SPACE_CLASSES:
+                    is_pres = True
+                leaf = fname.split(":")[-1].split(".")[-1]
+                if fname in ("builtins.print", "builtins.str", "builtins.repr", "builtins.format"):
+                    continue
+                argterms = list(d.get("args", ())) + [v for _, v in (d.get("kwargs") or ())]
+                if leaf in OBS_CALLS:
+                    argterms = [a for a in argterms if not (is_mode_term(a) and a[-1] == "fully_obs")]
+                if leaf in ("__init__",) or leaf in ("NASimEnv", "NASimGymEnv"):
+                    argterms = [a for a in argterms if not is_mode_term(a)]   # r0 forwarding
+                if mc and not (is_pres and all(pure_mode_cond(c) for c in mc)):
+                    what = f"call of {fname} happens only for some modes"
+                elif any(m(a) for a in argterms):
+                    what = f"an argument of {fname} depends on a mode"
+            elif mc:
+                what = f"{ev.kind} happens only for some modes"
+            if what:
+                bad.append(f"{what} ({ev.loc})")
+        chk.ob("C12.roles", f"{fi.qualname}: the {len(loads)} read(s) of mode fields reach only "
+               "presentation (r0 recorded/forwarded to a constructor, r1 the fully_obs argument of "
+               "get_(initial_)observation, r2 the choice numpy_flat()/numpy() or "
+               "shape_flat()/shape(), r3 the choice of action-space class, r4 string formatting)",
+               not bad, "; ".join(sorted(set(bad))[:4]), f"{fi.module.path}:{fi.node.lineno}")
+    chk.floor("C12.roles", n_env, 4, "loads of mode fields in environment.py")
 
 
 def run(ctx, chk):
@@ -113,15 +257,7 @@ def run(ctx, chk):
                                   "mode", f"{m.path}:{n.lineno}")
                     continue
                 n_env += 1
-                role = role_of(n, parents, m)
-                chk.ob("C12.roles", f"{fname}: load of {n.attr} is in presentation role "
-                       f"{role or '?'}", role is not None,
-                       "" if role else "the load is not (r0) a constructor argument, (r1) the "
-                       "fully_obs argument of get_(initial_)observation, (r2) an if choosing "
-                       "numpy_flat()/numpy() or shape_flat()/shape(), (r3) the if choosing the "
-                       "action-space class or (r4) string formatting",
-                       f"{m.path}:{n.lineno}", nontrivial=False)
-    chk.floor("C12.roles", n_env, 4, "loads of mode fields in environment.py")
+    check_roles(ctx, chk)
     chk.ob("C12.no-mode-in-dynamics", "no load of a mode field outside environment.py/gym_env.py",
            n_dyn == 0, f"{n_dyn} load(s)", "nasim/envs, nasim/scenarios")
     # parameter named like the mode inside State: only get_observation / get_initial_observation
